@@ -578,7 +578,7 @@ func (g *SymbolGraph) parentsUnsorted(node *SymbolNode, behavior *TraversalBehav
 	for parentKey := range g.revDeps[node.Id.BaseId()] {
 		edges := g.edges[parentKey.BaseId()]
 		for _, edgeDescriptor := range edges {
-			if edgeDescriptor.Edge.To != node.Id {
+			if edgeDescriptor.Edge.To.BaseId() != node.Id.BaseId() {
 				continue
 			}
 			if !shouldIncludeEdge(edgeDescriptor.Edge, behavior) {
@@ -598,7 +598,7 @@ func (g *SymbolGraph) parentsSorted(node *SymbolNode, behavior *TraversalBehavio
 	for parentKey := range g.revDeps[node.Id.BaseId()] {
 		edges := g.edges[parentKey.BaseId()]
 		for _, edgeDescriptor := range edges {
-			if edgeDescriptor.Edge.To != node.Id {
+			if edgeDescriptor.Edge.To.BaseId() != node.Id.BaseId() {
 				continue
 			}
 			if !shouldIncludeEdge(edgeDescriptor.Edge, behavior) {
